@@ -1085,6 +1085,8 @@ class StdRules:
                 em.note_call('vec_u8_resize'); return f"vec_u8_resize({objp}, {em.e(args[0])})"
             if name == 'resize' and len(args) == 2:
                 em.note_call('vec_u8_resize_val'); return f"vec_u8_resize_val({objp}, {em.e(args[0])}, {em.e(args[1])})"
+            if name == 'assign' and len(args) == 2 and self.T.c(self.T.strip_cv(self.T.strip_ref(em.ty(args[0])))) in ('size_t', 'uint64_t', 'uint32_t', 'uint16_t', 'uint8_t', 'int', 'int32_t', 'int64_t'):
+                em.note_call('vec_u8_assign_n'); return f"vec_u8_assign_n({objp}, {em.e(args[0])}, {em.e(args[1])})"
             if name == 'clear':
                 em.note_call('vec_u8_clear'); return f"vec_u8_clear({objp})"
             if name == 'operator=':
@@ -1194,7 +1196,17 @@ class StdRules:
         if name == '__builtin_memcpy':
             em.note_call('memcpy')
             return f"memcpy({em.e(args[0])}, {em.e(args[1])}, {em.e(args[2])})"
+        if name in ('memcmp', 'memset', 'memmove') and len(args) == 3:
+            # C library functions CBMC models itself (their own loops are unwound by CBMC: a symbolic length needs a bound in the harness)
+            em.note_call(name)
+            return f"{name}({em.e(args[0])}, {em.e(args[1])}, {em.e(args[2])})"
         if name in ('move', 'forward'): return em.e(args[0])
+        if name in ('max', 'min', 'lowest') and len(args) == 0:
+            # std::numeric_limits<T>::max() / min() of an unsigned integer type
+            t = T.c(T.strip_cv(T.strip_ref(em.ty(n))))
+            lim = {'uint8_t': '0xFFu', 'uint16_t': '0xFFFFu', 'uint32_t': '0xFFFFFFFFu', 'uint64_t': '0xFFFFFFFFFFFFFFFFul', 'size_t': '0xFFFFFFFFFFFFFFFFul'}
+            if t not in lim: raise Unsupported('std::numeric_limits::' + name + ' of ' + t)
+            return f"(({t})({lim[t] if name == 'max' else '0'}))"
         if name in ('max', 'min') and len(args) == 2:
             t = T.c(T.strip_cv(T.strip_ref(em.ty(n))))
             if t not in ('uint64_t', 'size_t'): raise Unsupported('std::' + name + ' on ' + t)
@@ -1779,7 +1791,7 @@ def emit_types(gen):
     return out
 
 MODELS_INCLUDE = '#include "models.h"'
-MODEL_FUNCTIONS = ['verif_memcpy', 'vec_u8_make_n', 'vec_u8_copy', 'vec_u8_resize', 'vec_u8_resize_val', 'vec_u8_assign_copy', 'vec_frames_push_back',
+MODEL_FUNCTIONS = ['verif_memcpy', 'vec_u8_make_n', 'vec_u8_copy', 'vec_u8_resize', 'vec_u8_resize_val', 'vec_u8_assign_n', 'vec_u8_assign_copy', 'vec_frames_push_back',
                    'sv_find', 'sv_from_cstr', 'str_from_int', 'map_slot_index', 'map_slot_erase']
 
 def run(ast_dir, spec_paths, excluded_path, out_c, out_map, out_report, layouts_path=None):
